@@ -59,6 +59,7 @@ type Pkg struct {
 	Ctor    string
 	Context string
 	Deep    bool // depth-2 constructor: tighter string bound
+	LongStr bool // strings take a length out of {0, 8, 9, 17} instead of 0..MaxStr
 }
 
 // ---------- .bop text ----------
@@ -348,7 +349,41 @@ func ShapesProfile(tier, profile string) []*Pkg {
 			add(i32, ctor{name: "map[" + k + ",T]"}, "message", mp(k, prim("int32")))
 		}
 	}
-	// byte arrays (special-cased by the generator)
+	// records that END with the field under test (no sentinel): the last value
+	// of a top-level encoding sits at the very end of the buffer
+	for _, lf := range leaves {
+		if profile == "lite" && tier == "quick" && !liteLeaves[lf.name] {
+			continue
+		}
+		for ci, ct := range Ctors[:2] {
+			if ci == 1 && !(lf.name == "string" || lf.name == "int32" || lf.name == "StrS" || lf.name == "Msg") {
+				continue
+			}
+			for _, cx := range []string{"struct", "message"} {
+				defs := append([]*Def{}, lf.defs...)
+				defs = append(defs, buildRec(ct.build(lf.typ), cx, false)...)
+				p := &Pkg{Schema: &Schema{Defs: defs}, Leaf: lf.name, Ctor: ct.name, Context: cx}
+				p.Shape = fmt.Sprintf("%s as the last field of a %s of %s", ct.name, cx, lf.name)
+				out = append(out, p)
+			}
+		}
+	}
+	// long strings in front of every 8-byte scalar (scratch-buffer interactions)
+	for _, cx := range []string{"struct", "message"} {
+		fields := []Field{{Name: "s", Type: prim("string")}, {Name: "a", Type: prim("uint64")}, {Name: "t", Type: prim("string")}, {Name: "b", Type: prim("float64")}, {Name: "d", Type: prim("date")}, {Name: "c", Type: prim("int64")}, {Name: "after", Type: prim("int32")}}
+		d := &Def{Kind: "struct", Name: "Rec", Fields: fields}
+		if cx == "message" {
+			d = &Def{Kind: "message", Name: "Rec"}
+			fields = []Field{fields[0], fields[1], fields[4], fields[6]}
+			for i, f := range fields {
+				f.Index = i + 1
+				d.Fields = append(d.Fields, f)
+			}
+		}
+		p := &Pkg{Schema: &Schema{Defs: []*Def{d}}, Leaf: "string", Ctor: "long-strings", Context: cx, LongStr: true}
+		p.Shape = "long strings (0, 8, 9, 17 bytes) before 8-byte scalars in a " + cx
+		out = append(out, p)
+	}
 	for i, p := range out {
 		p.Name = fmt.Sprintf("r%04d", i)
 	}
@@ -381,12 +416,13 @@ var primGo = map[string]string{"bool": "bool", "byte": "byte", "uint8": "uint8",
 var primWidth = map[string]int{"bool": 1, "byte": 1, "uint8": 1, "uint16": 2, "int16": 2, "uint32": 4, "int32": 4, "uint64": 8, "int64": 8, "float32": 4, "float64": 8, "guid": 16, "date": 8}
 
 type gen struct {
-	cross bool // emit cross-version equality (calls xEq_ instead of vEq_)
-	sb    strings.Builder
-	s     *Schema
-	o     Opts
-	tmp   int
-	tier  Tier
+	longStr bool
+	cross   bool // emit cross-version equality (calls xEq_ instead of vEq_)
+	sb      strings.Builder
+	s       *Schema
+	o       Opts
+	tmp     int
+	tier    Tier
 }
 
 func (g *gen) p(format string, a ...interface{}) { fmt.Fprintf(&g.sb, format, a...) }
@@ -437,7 +473,11 @@ func (g *gen) nondet(t *Type, dst, ind string) {
 		case "float64":
 			g.p("%s%s = math.Float64frombits(vstub.NondetU64())\n", ind, dst)
 		case "string":
-			g.p("%s%s = vstub.NondetString(vstub.Choose(0, vMaxStr))\n", ind, dst)
+			if g.longStr {
+				g.p("%s%s = vstub.NondetString([]int{0, 8, 9, 17}[vstub.Choose(0, 3)])\n", ind, dst)
+			} else {
+				g.p("%s%s = vstub.NondetString(vstub.Choose(0, vMaxStr))\n", ind, dst)
+			}
 		case "guid":
 			g.p("%s%s = vstub.NondetGUID()\n", ind, dst)
 		case "date":
@@ -667,7 +707,7 @@ func Glue(p *Pkg, o Opts, tier Tier, harness string) string {
 	if p.Deep {
 		tier.MaxStr = 1
 	}
-	g := &gen{s: p.Schema, o: o, tier: tier}
+	g := &gen{s: p.Schema, o: o, tier: tier, longStr: p.LongStr}
 	g.p("// Code generated by the verification corpus generator; DO NOT EDIT.\n// shape: %s\n\npackage %s\n\n", p.Shape, p.Name)
 	g.p("import (\n\t\"math\"\n\t\"time\"\n\n\t\"vh/vstub\"\n)\n\nvar _ = math.Float32bits\nvar _ time.Time\n\n")
 	g.p("var (\n\tvMaxArr   = %d\n\tvMaxStr   = %d\n\tvMaxMap   = %d\n\tvMaxDepth = %d\n)\n\nconst vThorough = %v\n\n// vShape tags assertion ids whose known failures depend on the shape of the record.\nconst vShape = %q\n\n", tier.MaxArr, tier.MaxStr, tier.MaxMap, tier.MaxDepth, tier.Name == "thorough", shapeTag(p.Schema))
